@@ -8,16 +8,10 @@ props = [json.loads(l) for l in open(os.path.join(ROOT, "properties.jsonl"))]
 TECH = "contract-based deductive verification: VCs generated from the real Python AST under sidecar contracts, discharged by z3/cvc5"
 
 # property -> (category, text, note, technique, design_ref)
-CLAIMS = {
- "C08": ("proof",
-         "Per-function contracts on the real limit-accounting functions and the three scheduler handlers: pointwise arithmetic of consume/release (loop invariants), the safety invariant used<=limit preserved by every writer, and the accounting protocol (ghost holdings: consume only when nothing is held, release only what is held, handlers end with nothing held; submit sites only while holding and never in a dry run). All inputs, all iteration counts, every handler order (invariant of each handler).",
-         "Trusted: opaque calls do not write the tracked attributes (mechanical frame scan, aliasing excluded); deferred-call rule A-QUEUE; non-negative limit counts; Job.get_limits/_get_cache/_check_jobs_pending_limits contracts assumed; counter-equals-sum-of-holdings is a paper induction over the proved protocol. Thread interleavings inside a handler do not exist (single scheduler thread).",
-         TECH, "DESIGN.md §8 C08"),
- "C37": ("proof",
-         "Representation invariant of the real TaskRegistry (every task stored under its current full name; hash counts equal the histogram of hashes of the held tasks, no zero entries) proved preserved by add/rename/_decrement_hash_count, with whole-view postconditions (other entries unchanged); task_hashes returns exactly the hashes of held tasks and its internal assertion cannot fail; get() by name/hash; wraps_task's renaming step moves the inner task to <ns>.<wrapper>.<name>. All registry states and arguments.",
-         "Trusted: A-HIST (defining axioms of the ghost histogram), A-ALIAS/frame scan for _tasks/_task_hash_counts. The nested-wrapper (recursive) branch of recursive_rename is outside the proved scope and only exercised by the bounded check (op sequences <= 2/3, labelled bounded).",
-         TECH, "DESIGN.md §8 C37"),
-}
+CLAIMS = {}
+for fn in sorted(os.listdir(os.path.join(ROOT, "tools", "claims"))):
+    c = json.load(open(os.path.join(ROOT, "tools", "claims", fn)))
+    CLAIMS[fn[:-5]] = (c["category"], c["text"], c["note"], c.get("technique", TECH), c["design_ref"])
 
 NA = {
  "C01": "whole-program simulation against a reduction semantics over all workflow programs and schedules: no per-function contract states it (DESIGN §8 C01)",
